@@ -79,6 +79,12 @@ def search_loops(fn):
 
 class FSearch(CExec):
     family = "F-SEARCH"
+    ASSUMES = [
+        "F-SEARCH: the key vector / separator vector is strictly ascending when a search starts (the leaf / node invariant; used "
+        "only through the instances the proof names) and 0 <= len <= INT_MAX/2",
+        "F-SEARCH: x >> k is an arithmetic shift; a loop that neither assigns through a subscript / dereference nor calls leaves "
+        "the element maps unchanged; Bucket_findRangeEnd: &offset does not point into the key vector",
+        "F-SEARCH: object-keyed units are outside (their comparison calls Python)"]
     precise_mem_havoc = True
 
     @classmethod
